@@ -431,6 +431,9 @@ RT_COARSE = [
     'A:#A ( A:#B ) A:#C', 'A:#A b:= ( A:#B ) A:#C', 'A:#A ( A:#B ) b:= A:#C', 'A:#A ( A:#B ) ( A:#C ) A:#D',
     'A:#A r:1 A:#B A:#C r:1', 'A:#A r:=1 A:#B A:#C r:1', 'A:#A r:%12 A:#B A:#C r:%12 A:#D',
     'A:#A r:1 A:#B ( A:#C ) A:#D r:1', 'A:#A ( A:#B A:#C ) A:#D A:#E', 'A:#A b:- A:#B',
+    # one node opens two rings, the ordered one written last here and first by the writer (and the other way round)
+    'A:#A r:2 r:=1 A:#B A:#C r:1 A:#D r:2', 'A:#A r:=2 r:1 A:#B A:#C r:1 A:#D r:2', 'A:#A r:1 r:#2 A:#B A:#C r:1 A:#D r:2',
+    'A:#A r:1 r:2 A:#B A:#C r:=1 A:#D r:2', 'A:#A r:1 r:2 A:#B A:#C r:1 A:#D r:=2', 'A:#A r:=1 r:2 r:3 A:#B A:#C r:1 A:#D r:2 A:#E r:3',
 ]
 
 
